@@ -16,7 +16,7 @@ func runC12(c *Ctx) {
 	// C12.O1
 	if fn := c.Fn("C12.O1", "p.(*DB).flush1"); fn != nil {
 		ingestKind, _ := c.ConstInt("p", "compactionKindIngestedFlushable")
-		fl := NewFlow(c.P).Edge("wrote-tables|ingest", CmpGuard(token.EQL, "c.kind", fmt.Sprint(ingestKind)))
+		fl := NewFlow(c.P).Edge("wrote-tables|ingest", CmpGuard(token.EQL, "kind", fmt.Sprint(ingestKind)))
 		queue := c.Field("C12.O1", "p.DB.mu.mem.queue")
 		res := c.Chain("C12.O1", fn, fl,
 			Step{Name: "runCompaction", M: CallTo("p.(*DB).runCompaction"), Also: "wrote-tables|ingest", Free: true},
